@@ -135,6 +135,51 @@ Proof.
   rewrite skipn_app, skipn_all, Nat.sub_diag. reflexivity.
 Qed.
 
+(* ---------- NVIDIA GPU nodes: a created slot is given another cpuset or dropped ---------- *)
+Lemma first_with_os_spec x : forall nodes k0 k, first_with_os nodes x k0 = Some k ->
+  exists cs pre post, nodes = pre ++ Some (x, cs) :: post /\ k = (k0 + List.length pre)%nat.
+Proof.
+  induction nodes as [|[[os cs]|] t IH]; intros k0 k H; cbn [first_with_os] in H.
+  - discriminate.
+  - destruct (os =? x) eqn:E.
+    + apply N.eqb_eq in E. subst os. injection H as <-.
+      exists cs, [], t. split; [reflexivity|]. cbn [List.length]. lia.
+    + destruct (IH _ _ H) as (cs' & pre & post & -> & ->).
+      exists cs', (Some (os, cs) :: pre), post. split; [reflexivity|]. cbn [List.length]. lia.
+  - destruct (IH _ _ H) as (cs' & pre & post & -> & ->).
+    exists cs', (None :: pre), post. split; [reflexivity|]. cbn [List.length]. lia.
+Qed.
+
+Lemma gpu_slot_nodup nodes x k (o : option (N * bset)) :
+  (o = None \/ exists c, o = Some (x, c)) ->
+  NoDup (created_os nodes) -> first_with_os nodes x 0 = Some k -> NoDup (created_os (set_nth nodes k o)).
+Proof.
+  intros Ho ND H. destruct (first_with_os_spec x nodes 0%nat k H) as (cs & pre & post & -> & ->).
+  cbn [Nat.add]. rewrite set_nth_middle.
+  rewrite created_os_app in ND. change (created_os (Some (x, cs) :: post)) with (x :: created_os post) in ND.
+  rewrite created_os_app.
+  destruct Ho as [-> | [c ->]].
+  - change (created_os (None :: post)) with (created_os post). exact (NoDup_remove_1 _ _ _ ND).
+  - exact ND.
+Qed.
+
+Lemma gpu_nodes_nodup v nodes : NoDup (created_os nodes) -> NoDup (created_os (gpu_nodes v nodes)).
+Proof.
+  unfold gpu_nodes. revert nodes. induction (nv_gpus v) as [|g gs IH]; intros nodes ND; [exact ND|].
+  cbn [fold_left]. apply IH.
+  destruct (gpu_node g) as [x|]; [|exact ND].
+  destruct (first_with_os nodes x 0) as [k|] eqn:F; [|exact ND].
+  apply (gpu_slot_nodup nodes x k); [|exact ND|exact F].
+  destruct (nv_keep v); [right; eexists; reflexivity|left; reflexivity].
+Qed.
+
+Lemma final_nodes_nodup v indexes : NoDup indexes -> NoDup (created_os (final_nodes v indexes)).
+Proof.
+  intros ND. unfold final_nodes. destruct (nv_nvidia v).
+  - apply gpu_nodes_nodup, create_nodes_nodup, ND.
+  - apply create_nodes_nodup, ND.
+Qed.
+
 Lemma len_snoc {A} (pre : list A) y : S (List.length pre) = List.length (pre ++ [y]).
 Proof. rewrite app_length. cbn [List.length]. lia. Qed.
 Lemma app_snoc {A} (pre : list A) y t : pre ++ y :: t = (pre ++ [y]) ++ t.
@@ -246,15 +291,14 @@ Proof. rewrite pass2_eq. exact (pass2_gen v dist nodes [] reqs). Qed.
 (* the NUMA requests are those of the slots with a non-empty cpuset, then those of the slots with an empty one *)
 Lemma numa_requests_order v indexes l :
   list_nodes v = inl (Some indexes) -> linux_node_requests v = Requests l ->
-  numa_os l = nonzero_os (create_nodes v indexes) ++ zero_os (create_nodes v indexes).
+  numa_os l = nonzero_os (final_nodes v indexes) ++ zero_os (final_nodes v indexes).
 Proof.
-  intros HL HR. unfold linux_node_requests in HR. rewrite HL in HR.
-  destruct (nv_nvidia v); [discriminate|].
+  intros HL HR. unfold linux_node_requests in HR. rewrite HL in HR. cbn zeta in HR.
   destruct (if nv_dist v && negb (Nat.leb (List.length indexes) 1) then parse_rows v (List.length indexes) indexes else inl None)
     as [dist|why]; [|discriminate].
   destruct (nv_knl v); [discriminate|].
-  pose proof (pass1_spec v (create_nodes v indexes)) as [P1 P1z].
-  destruct (pass1 v (create_nodes v indexes)) as [nodes1 reqs1]. cbn [fst snd] in P1, P1z.
+  pose proof (pass1_spec v (final_nodes v indexes)) as [P1 P1z].
+  destruct (pass1 v (final_nodes v indexes)) as [nodes1 reqs1]. cbn [fst snd] in P1, P1z.
   pose proof (pass2_spec v dist nodes1 reqs1) as P2.
   destruct (pass2 v dist nodes1 reqs1) as [nodes2 reqs2]. cbn [snd] in P2.
   injection HR as <-. rewrite P2, P1, P1z. reflexivity.
@@ -268,13 +312,13 @@ Proof.
   intros v indexes l HL ND HR.
   rewrite (numa_requests_order v indexes l HL HR).
   eapply Permutation_NoDup; [apply created_split|].
-  apply create_nodes_nodup. exact ND.
+  apply final_nodes_nodup. exact ND.
 Qed.
 
 (* the hypotheses are met by a machine (online = "0-2") whose node 1 is CPU-less: it is requested by the second pass,
    after nodes 0 and 2 *)
 Definition distinct_view : nview :=
-  mkNV false false false false false false None false (Some [48; 45; 50; 10])
+  mkNV false false false false false false None false true [] (Some [48; 45; 50; 10])
        None
        [mkNF 0 (Some [49; 10]) None None None None;
         mkNF 1 (Some [48; 10]) None None None None;
@@ -282,6 +326,23 @@ Definition distinct_view : nview :=
 Example distinct_view_meets :
   list_nodes distinct_view = inl (Some [0; 1; 2]) /\ NoDup [0; 1; 2] /\
   exists l, linux_node_requests distinct_view = Requests l /\ numa_os l = [0; 2; 1].
+Proof.
+  split; [vm_compute; reflexivity|]. split.
+  - repeat constructor; cbn [In]; lia.
+  - eexists. split; vm_compute; reflexivity.
+Qed.
+
+(* the same machine with NVIDIA GPU memory as node 1 ("Node: 1" in numa_status), not kept: node 1 is not requested *)
+Definition distinct_gpu_view : nview :=
+  mkNV false false false false false false None true false
+       [mkGpu (Some [78; 111; 100; 101; 58; 32; 49; 10]) None]
+       (Some [48; 45; 50; 10]) None
+       [mkNF 0 (Some [49; 10]) None None None None;
+        mkNF 1 (Some [48; 10]) None None None None;
+        mkNF 2 (Some [50; 10]) None None None None].
+Example distinct_gpu_view_meets :
+  list_nodes distinct_gpu_view = inl (Some [0; 1; 2]) /\ NoDup [0; 1; 2] /\
+  exists l, linux_node_requests distinct_gpu_view = Requests l /\ numa_os l = [0; 2].
 Proof.
   split; [vm_compute; reflexivity|]. split.
   - repeat constructor; cbn [In]; lia.
